@@ -97,7 +97,24 @@ pub async fn exec(a: &Args) -> Args {
     // now the request
     let established: u64 = match conn.open_bi().await {
         Ok((mut s, mut r)) => {
-            let _ = s.write_all(&request_bytes("/c", &[])).await;
+            // a[3]: the request HEADERS in pieces too
+            let req = request_bytes("/c", &[]);
+            let mut last = 0usize;
+            for c in a.get(3).map(|v| v.as_slice()).unwrap_or(&[]) {
+                let c = *c as usize;
+                if c > last && c < req.len() {
+                    let _ = s.write_all(&req[last..c]).await;
+                    last = c;
+                    tokio::time::sleep(PAUSE).await;
+                    if inject == 1 {
+                        let mut d = enc_varint(0);
+                        d.extend(b"dgram");
+                        let _ = conn.send_datagram(d.into());
+                        tokio::time::sleep(PAUSE).await;
+                    }
+                }
+            }
+            let _ = s.write_all(&req[last..]).await;
             match tokio::time::timeout(Duration::from_millis(900), read_one_frame(&mut r)).await {
                 Ok(Ok((1, _))) => {
                     keep.push(s);
@@ -123,14 +140,61 @@ pub async fn exec(a: &Args) -> Args {
     vec![vec![1, established], ch, cr, vec![app_ok as u64]]
 }
 
+/// a control stream that the specifications accept and that only carries ignorable frames after
+/// SETTINGS, read here independently of the library
+fn benign_control_stream(b: &[u8]) -> bool {
+    fn vi(b: &[u8], pos: &mut usize) -> Option<u64> {
+        let first = *b.get(*pos)?;
+        let n = 1usize << (first >> 6);
+        if *pos + n > b.len() { return None; }
+        let mut v = (first & 0x3f) as u64;
+        for i in 1..n { v = v << 8 | b[*pos + i] as u64; }
+        *pos += n;
+        Some(v)
+    }
+    let mut pos = 0;
+    if vi(b, &mut pos) != Some(0) { return false; }
+    let mut first = true;
+    while pos < b.len() {
+        let (t, l) = match (vi(b, &mut pos), vi(b, &mut pos)) { (Some(t), Some(l)) => (t, l as usize), _ => return false };
+        if pos + l > b.len() || l > 4096 { return false; }
+        let payload = &b[pos..pos + l];
+        pos += l;
+        if first {
+            if t != 4 { return false; }
+            let mut q = 0;
+            let mut seen = vec![];
+            while q < payload.len() {
+                match (vi(payload, &mut q), vi(payload, &mut q)) {
+                    (Some(id), Some(_)) => {
+                        if (2..=5).contains(&id) || id == 0 || seen.contains(&id) { return false; }
+                        seen.push(id);
+                    }
+                    _ => return false,
+                }
+            }
+            first = false;
+        } else {
+            let grease = t >= 0x21 && (t - 0x21) % 0x1f == 0;
+            let known = [0u64, 1, 4, 0x41].contains(&t);
+            if known && !grease { return false; }
+        }
+    }
+    !first
+}
+
 pub fn oracle(a: &Args, out: &Args) -> Option<(&'static str, String)> {
     if out[0][0] != 1 {
         return None;
     }
-    // C05: the outcome must not depend on where the bytes are cut nor on what happens in between
-    if !a[2].is_empty() {
-        // expected outcome = the same bytes in one piece; evaluated by the model, see E2C.v; the
-        // implementation-side statement needs a second run, done by the caller through `compare_uncut`
+    // C05 / C12 / C13: a well-formed control stream with only ignorable frames after SETTINGS, left
+    // open, leads to an established session however its bytes (and those of the request) are cut and
+    // whatever happens in between
+    if a[0][0] == 3 && benign_control_stream(&a2b(&a[1])) {
+        let closed = out[1].first() != Some(&TAG_PENDING);
+        if out[0][1] != 1 || closed {
+            return Some(("C05+C12+C13", format!("valid control stream cut at {:?} (request cut at {:?}, event {} in between): session established={} connection ended={:?}", a[2], a.get(3), a[0][2], out[0][1] == 1, out[1])));
+        }
     }
     None
 }
@@ -227,6 +291,14 @@ pub fn generate(rng: &mut Rng, thorough: bool, cut_matrix: bool) -> Vec<Case> {
         }
         cut += step;
     }
+    // the request HEADERS cut as well (read by the per-stream task of the accept path)
+    let rl = request_bytes("/c", &[]).len();
+    let mut rc = 1;
+    while rc < rl {
+        cs.push(Case::new(611, vec![vec![3, 0, (rc % 2) as u64], b2a(&b), vec![], vec![rc as u64]], "request-cut"));
+        rc += if thorough { 1 } else { 5 };
+    }
+    cs.push(Case::new(611, vec![vec![3, 0, 0], b2a(&b), vec![2], vec![1, 3, (rl - 1) as u64]], "request-cut"));
     // two cuts
     let k = if thorough { 20 } else { 4 };
     for _ in 0..k {
